@@ -1,0 +1,67 @@
+//go:build verif
+
+// Contracts for the deductive verifier in /verif (comment-only; compiled only with -tags verif).
+
+package x509
+
+//@ uf extMatches(j int) bool
+// extMatches(j): "extension j of the decoded TBSCertificate has the OID looked for", i.e. the
+// result of Id.Equal(oid) observed in the single pass over the extensions (asn1.ObjectIdentifier.Equal
+// is separately proved to be element-wise equality).
+
+//@ func removeExtension
+//@ props C03
+//@ arith int
+//@ pure
+//@ site asn1.Unmarshal#1 as um
+//@ site Equal#1 as eq
+//@ site asn1.Marshal#1 as m
+//@ let out = as(m.val, tbsCertificate)
+//@ let n = after(um, len(tbs.Extensions))
+//@ after eq define extMatches(i) == eq.res
+//@ at eq assert [compares-extension-i-with-oid] eq.oi == after(um, tbs.Extensions[i].Id) && eq.other == oid && 0 <= i && i < n
+//@ loop 1 invariant extAt == -1 || (0 <= extAt && extAt <= rangeindex)
+//@ loop 1 invariant extAt == -1 ==> (forall j int :: 0 <= j && j <= rangeindex ==> !extMatches(j))
+//@ loop 1 invariant extAt != -1 ==> extMatches(extAt) && (forall j int :: 0 <= j && j <= rangeindex && j != extAt ==> !extMatches(j))
+//@ ensures [fails-unless-parses-completely] result1 == nil ==> um.res1 == nil && len(um.res0) == 0
+//@ ensures [succeeds-only-with-exactly-one] result1 == nil ==> (exists k int :: 0 <= k && k < n && extMatches(k) && (forall j int :: 0 <= j && j < n && j != k ==> !extMatches(j)))
+//@ ensures [absent-is-an-error] um.res1 == nil && (forall j int :: 0 <= j && j < n ==> !extMatches(j)) ==> result1 != nil && !m.called
+//@ ensures [twice-is-an-error] um.res1 == nil && (exists a int, b int :: 0 <= a && a < b && b < n && extMatches(a) && extMatches(b)) ==> result1 != nil && !m.called
+//@ ensures [result-is-the-remarshalled-tbs] result1 == nil ==> m.called && m.res1 == nil && result0 == m.res0
+//@ at m assert [remarshals-a-tbs] typeof(m.val) == tbsCertificate
+//@ at m assert [one-extension-fewer] len(out.Extensions) == n - 1 && 0 <= extAt && extAt < n && extMatches(extAt)
+//@ at m assert [prefix-kept-in-order] forall j int :: 0 <= j && j < extAt ==> out.Extensions[j] == after(um, tbs.Extensions[j])
+//@ at m assert [suffix-shifted-in-order] forall j int :: extAt <= j && j < n - 1 ==> out.Extensions[j] == after(um, tbs.Extensions[j+1])
+//@ at m assert [raw-cleared-so-structure-is-reencoded] out.Raw == nil
+//@ at m assert [other-fields-untouched] out.Version == after(um, tbs.Version) && out.SerialNumber == after(um, tbs.SerialNumber) && out.SignatureAlgorithm == after(um, tbs.SignatureAlgorithm) && out.Issuer == after(um, tbs.Issuer) && out.Validity == after(um, tbs.Validity) && out.Subject == after(um, tbs.Subject) && out.PublicKey == after(um, tbs.PublicKey) && out.UniqueId == after(um, tbs.UniqueId) && out.SubjectUniqueId == after(um, tbs.SubjectUniqueId)
+
+//@ func RemoveSCTList
+//@ props C03
+//@ pure
+//@ site removeExtension#1 as rm
+//@ ensures [removes-sct-list-extension] result0 == rm.res0 && result1 == rm.res1
+//@ at rm assert [targets-sct-list-oid] rm.tbsData == tbsData && rm.oid == OIDExtensionCTSCT
+
+//@ func BuildPrecertTBS
+//@ props C01 C03
+//@ arith int
+//@ pure
+//@ site removeExtension#1 as rm
+//@ site asn1.Unmarshal#1 as um
+//@ site asn1.Marshal#1 as m
+//@ let out = as(m.val, tbsCertificate)
+//@ ensures [poison-removal-failure-propagates] rm.res1 != nil ==> result1 != nil && result0 == nil
+//@ ensures [result-is-the-remarshalled-tbs] result1 == nil ==> rm.res1 == nil && um.called && um.res1 == nil && len(um.res0) == 0 && m.called && m.res1 == nil && result0 == m.res0
+//@ at rm assert [removes-the-poison-extension] rm.tbsData == tbsData && rm.oid == OIDExtensionCTPoison
+//@ at um assert [reparses-the-depoisoned-tbs] um.b == rm.res0
+//@ at m assert [remarshals-a-tbs] typeof(m.val) == tbsCertificate
+//@ at m assert [direct-issuer-nothing-else-touched] preIssuer == nil ==> out == after(um, tbs)
+//@ at m assert [preissuer-issuer-name-replaced] preIssuer != nil ==> out.Issuer.FullBytes == preIssuer.RawIssuer && out.Raw == nil
+//@ at m assert [preissuer-other-fields-untouched] preIssuer != nil ==> out.Version == after(um, tbs.Version) && out.SerialNumber == after(um, tbs.SerialNumber) && out.SignatureAlgorithm == after(um, tbs.SignatureAlgorithm) && out.Validity == after(um, tbs.Validity) && out.Subject == after(um, tbs.Subject) && out.PublicKey == after(um, tbs.PublicKey) && out.UniqueId == after(um, tbs.UniqueId) && out.SubjectUniqueId == after(um, tbs.SubjectUniqueId)
+
+//@ func RemoveCTPoison
+//@ props C03
+//@ pure
+//@ site BuildPrecertTBS#1 as b
+//@ ensures [same-as-direct-issuer-route] result0 == b.res0 && result1 == b.res1
+//@ at b assert [no-preissuer] b.tbsData == tbsData && b.preIssuer == nil
